@@ -31,11 +31,12 @@ try:
             for name, cmd in (("z3-4.8.12", ["/usr/bin/z3", "-T:20", f]),
                               ("cvc5-1.0.3", ["cvc5", "--tlimit=20000", f])):
                 try:
-                    out = subprocess.run(cmd, capture_output=True, text=True, timeout=40).stdout
+                    out = subprocess.run(cmd, capture_output=True, text=True, timeout=40)
+                    out = out.stdout + out.stderr
                 except subprocess.TimeoutExpired:
                     out = "timeout"
                 m = re.search(r"^(sat|unsat|unknown|timeout)", out, re.M)
-                got = m.group(1) if m else "error"
+                got = m.group(1) if m else ("timeout" if "timeout" in out else "error")
                 if "(error" in out:
                     got = "error"
                 stats[(c, name, want, got)] += 1
